@@ -6,7 +6,9 @@ package main
 // i.e. conservatively).
 
 import (
+	"go/constant"
 	"go/token"
+	"go/types"
 
 	"golang.org/x/tools/go/ssa"
 )
@@ -40,7 +42,65 @@ func edgeEstablishes(b *ssa.BasicBlock, i int, pred EdgePred) bool {
 		return false
 	}
 	c, pol := normCond(iff.Cond, i == 0)
-	return pred(c, pol)
+	if pred(c, pol) {
+		return true
+	}
+	// a short-circuit expression used as a value (`case a && b:` of a tagless switch, `x := a || b; if x`) arrives as
+	// a phi of constants and the last operand: its truth decomposes into the operands'
+	for _, cj := range expandShortCircuit(c, pol, 0) {
+		if pred(cj.c, cj.pol) {
+			return true
+		}
+	}
+	return false
+}
+
+type condPol struct {
+	c   ssa.Value
+	pol bool
+}
+
+// expandShortCircuit: for a boolean phi that merges constants (the short-circuit exits) with a computed operand, the
+// conditions that hold when the phi has the value pol: none of the constant exits with the other value was taken (so
+// each exiting block's own condition went the other way) and the computed operand equals pol. Empty when a constant
+// exit itself has the value pol (then nothing follows).
+func expandShortCircuit(c ssa.Value, pol bool, depth int) []condPol {
+	phi, ok := c.(*ssa.Phi)
+	if !ok || depth > 4 {
+		return nil
+	}
+	if bt, isB := phi.Type().Underlying().(*types.Basic); !isB || bt.Info()&types.IsBoolean == 0 {
+		return nil
+	}
+	var out []condPol
+	for i, e := range phi.Edges {
+		pb := phi.Block().Preds[i]
+		if k, isC := e.(*ssa.Const); isC && k.Value != nil && k.Value.Kind() == constant.Bool {
+			if constant.BoolVal(k.Value) == pol {
+				return nil // this exit yields pol by itself
+			}
+			// the exit was not taken: pb's branch went to its other successor
+			if len(pb.Instrs) == 0 {
+				return nil
+			}
+			iff, isIf := pb.Instrs[len(pb.Instrs)-1].(*ssa.If)
+			if !isIf || len(pb.Succs) != 2 {
+				return nil
+			}
+			taken := 0
+			if pb.Succs[0] == phi.Block() {
+				taken = 1
+			}
+			cc, pp := normCond(iff.Cond, taken == 0)
+			out = append(out, condPol{cc, pp})
+			out = append(out, expandShortCircuit(cc, pp, depth+1)...)
+			continue
+		}
+		cc, pp := normCond(e, pol)
+		out = append(out, condPol{cc, pp})
+		out = append(out, expandShortCircuit(cc, pp, depth+1)...)
+	}
+	return out
 }
 
 func instrIndex(in ssa.Instruction) int {
